@@ -95,7 +95,7 @@ def _classify_stack(txt):
         return 'computing'
     if re.search(r'pool\.py", line \d+ in worker', txt):
         return 'idle_worker'
-    if re.search(r'pool\.py", line \d+ in (get|wait)', txt) or 'filter_mc_sharemem' in txt:
+    if re.search(r'pool\.py", line \d+ in (get|wait|join)', txt) or 'filter_mc_sharemem' in txt:
         return 'parent_waiting'
     return 'other'
 
@@ -201,6 +201,19 @@ def run_specs(specs, scratch, quiet_s=20.0, hard_s=240.0, env_extra=None):
             if sig != last_sig:
                 last_sig = sig
                 last_change = time.monotonic()
+            # signal injection: once the current run's log shows `count` events `after_event`, signal the whole group
+            if current is not None:
+                spc = next((s_ for s_ in todo if s_['k'] == current), None)
+                sg = (spc or {}).get('signal')
+                if sg and not spc.get('_signalled'):
+                    n_ev = sum(1 for e in parse_log(spc['log']) if e[3] == sg['after_event'])
+                    if n_ev >= sg['count']:
+                        time.sleep(sg.get('settle', 0.2))
+                        try:
+                            os.killpg(proc.pid, getattr(signal, 'SIG' + sg['sig']))
+                        except ProcessLookupError:
+                            pass
+                        spc['_signalled'] = time.monotonic()
             quiet = time.monotonic() - last_change
             if current is not None and quiet > quiet_s:
                 cert = _certificate(proc.pid, rp + '.stacks', next(s for s in todo if s['k'] == current))
@@ -211,6 +224,10 @@ def run_specs(specs, scratch, quiet_s=20.0, hard_s=240.0, env_extra=None):
                     verdict = ('stuck', cert)
                     break
                 last_change = time.monotonic() - quiet_s / 2      # look again in a while
+            if current is None and time.monotonic() - last_change > quiet_s:
+                # nothing is being judged (between runs, or all runs recorded) and the child does not move: e.g. the
+                # interpreter blocked at shutdown by a pool the subject abandoned.  Not a judged run: end the child.
+                break
             time.sleep(0.05)
         if verdict is not None:
             _kill(proc)
@@ -313,8 +330,8 @@ def _certificate(sid, stacks_path, spec):
             pass
     # no process has an enabled step: workers wait at the barrier or sit idle waiting for a task that the pool
     # is not handing out, and the parent waits for a result
-    blocked = kinds.count('barrier_wait') >= 1 or (kinds.count('idle_worker') >= 1 and
-                                                   set(kinds) <= {'idle_worker', 'parent_waiting'})
+    # (that includes a parent joining a pool whose workers are all gone)
+    blocked = set(kinds) <= {'barrier_wait', 'idle_worker', 'parent_waiting'}
     deadlock = (c1 == c2 and size0 == size1 and 'computing' not in kinds and 'no_dump' not in kinds
                 and 'other' not in kinds and 'parent_waiting' in kinds and blocked)
     return {'deadlock': bool(deadlock), 'process_states': kinds, 'last_event_per_stripe': last,
